@@ -27,6 +27,10 @@ import (
 
 var keySubst = map[ast.Node]string{}
 
+// synthField: selectors written by the accessor inliner for an implicit embedded-field hop (they have
+// no types.Selection, which cannot be constructed): the field they select.
+var synthField = map[*ast.SelectorExpr]*types.Var{}
+
 // singleDef: local variables with exactly one definition in their function (whatever its
 // right-hand side) -> that expression. Used to look through variables captured by closures.
 var singleDef = map[types.Object]ast.Expr{}
@@ -674,7 +678,25 @@ func inlineAccessors(p *Prog, pkgs []*packages.Package, declOf map[*types.Func]*
 							return true
 						}
 						if len(fd.Recv.List[0].Names) == 1 {
-							env[info.Defs[fd.Recv.List[0].Names[0]]] = se.X
+							// a method promoted through embedded fields (`s.m()` for `s.inner.m()`): its receiver is
+							// s.inner, spelled out so that field and lock paths in the inlined body stay exact
+							recvX := se.X
+							if sel := info.Selections[se]; sel != nil && len(sel.Index()) > 1 {
+								t := sel.Recv()
+								for h := 0; h < len(sel.Index())-1; h++ {
+									st := structOf(t)
+									if st == nil {
+										return true
+									}
+									fld := st.Field(sel.Index()[h])
+									syn := &ast.SelectorExpr{X: recvX, Sel: ast.NewIdent(fld.Name())}
+									synthField[syn] = fld
+									info.Types[syn] = types.TypeAndValue{Type: fld.Type()}
+									recvX = syn
+									t = fld.Type()
+								}
+							}
+							env[info.Defs[fd.Recv.List[0].Names[0]]] = recvX
 						}
 					}
 					i := 0
